@@ -31,22 +31,12 @@ compat.install_requests_shim()
 
 class StackRig:
     def __init__(self, tape, *, version=8, path="/dev/ttySIM", plan=None, K=1, sched=True, max_iters=400_000,
-                 max_vt=1e6, chunking=True, monitor=True, fast_line=False):
+                 max_vt=1e6, chunking=True, monitor=True, fast_line=False, loop=None, defer=False):
         self.tape = tape
-        self.loop = SimLoop(tape if sched else None, max_iters=max_iters, max_vt=max_vt)
-        self.shim = TimeShim(self.loop)
-        compat.patch_time(self.shim)
-        compat.patch_random(tape)
+        self.version, self.K, self.chunking, self.monitor, self.fast_line = version, K, chunking, monitor, fast_line
         self.log = []
         self.path = path
         self.plan = plan if plan is not None else FaultPlan(tape, False)
-        self.line = Line(self.loop, tape, self.plan, log=self.log, chunking=chunking, nodup_kinds=("rst", "rstack"))
-        if fast_line:  # fixed 1 ms latency, no latency draws (properties that are not about link timing)
-            self.line._latency = lambda: 0.001
-        self.mon = WireMonitor(self.loop, payload_ok=None) if monitor else None
-        self.ncp = Ncp(self.loop, tape, version, self.log)
-        self.ncp_ash = R.NcpEndpoint(self.loop, tape, self._ncp_emit, upper=self.ncp, K=K, log=self.log)
-        self.ncp.attach(self.ncp_ash)
         self.transport = None
         self.ash = None  # the real AshProtocol
         self.gw = None  # the real Gateway
@@ -57,13 +47,35 @@ class StackRig:
         self.sent_payloads = []  # (t, bytes) every EZSP frame handed to Gateway.send_data
         self.on_send_data = None  # callable(bytes) at entry of Gateway.send_data (runs in the caller's task)
         self.on_send_done = None  # callable(bytes, exc) when Gateway.send_data returns or raises
-        self.line.h2n.sink = self.ncp_ash.feed
-        self.line.n2h.sink = self._to_host
+        self.on_bind = None  # callable(rig) once line/NCP exist (threaded rigs bind late)
+        self.loop = None
+        compat.patch_random(tape)
         zigpy.serial.create_serial_connection = self._create_serial_connection
         bellows.uart.zigpy.serial.create_serial_connection = self._create_serial_connection
+        if not defer:
+            self._bind(loop if loop is not None else SimLoop(tape if sched else None, max_iters=max_iters, max_vt=max_vt))
+
+    def _bind(self, loop):
+        """Create everything that lives on the loop the serial transport belongs to."""
+        self.loop = loop
+        self.shim = TimeShim(loop)
+        compat.patch_time(self.shim)
+        self.line = Line(loop, self.tape, self.plan, log=self.log, chunking=self.chunking, nodup_kinds=("rst", "rstack"))
+        if self.fast_line:  # fixed 1 ms latency, no latency draws (properties that are not about link timing)
+            self.line._latency = lambda: 0.001
+        self.mon = WireMonitor(loop, payload_ok=None) if self.monitor else None
+        self.ncp = Ncp(loop, self.tape, self.version, self.log)
+        self.ncp_ash = R.NcpEndpoint(loop, self.tape, self._ncp_emit, upper=self.ncp, K=self.K, log=self.log)
+        self.ncp.attach(self.ncp_ash)
+        self.line.h2n.sink = self.ncp_ash.feed
+        self.line.n2h.sink = self._to_host
+        if self.on_bind is not None:
+            self.on_bind(self)
 
     # ------------------------------------------------------------------ wiring
     async def _create_serial_connection(self, loop, protocol_factory, url=None, **kw):
+        if self.loop is None:
+            self._bind(loop)
         protocol = protocol_factory()
         self.ash = protocol
         self.gw = protocol._ezsp_protocol
